@@ -5,7 +5,7 @@
    loop of gather.go); S = the ONNX index formulas (Check/CheckC08.v: Slice-13 clamping rules, Gather
    formula, two-way broadcast, concatenation, permutation). *)
 From Coq Require Import List ZArith Bool String.
-From V Require Import DType Tensor Case OpCheck BroadcastProofs IndexOps CheckC08 ShapeOpsProofs IndexOpsProofs GatherLoop GatherLoopProofs C08TransposeFormula.
+From V Require Import DType Tensor Case OpCheck BroadcastProofs IndexOps CheckC08 ShapeOpsProofs IndexOpsProofs GatherLoop GatherLoopProofs C08TransposeFormula C08ConcatShape.
 Import ListNotations.
 
 (* For EVERY case of the five operators -- any rank, any positive extents, any attributes and operand
@@ -64,6 +64,19 @@ Theorem C08_transpose_spec_is_formula t (perm : list nat) :
               forall k, (k < List.length (sh t))%nat -> nth (nth k perm 0%nat) j 0%nat = nth k i 0%nat.
 Proof. exact (transpose_spec_is_formula t perm). Qed.
 Print Assumptions C08_transpose_spec_is_formula.
+
+(* the value S prescribes for Concat (concat_value), for ANY number of inputs and any axis of the
+   first input: the extent along the axis is the sum of all inputs' extents there, every other
+   extent, the rank and the element type are the first input's, and the payload has one entry per
+   element of that shape *)
+Theorem C08_concat_spec_shape axis t0 rest v :
+  concat_value axis (t0 :: rest) = Some v -> (axis < List.length (sh t0))%nat ->
+  dt v = dt t0 /\ List.length (sh v) = List.length (sh t0) /\
+  nthz (sh v) axis = sum_extents axis (t0 :: rest) /\
+  (forall k, (k < List.length (sh t0))%nat -> k <> axis -> nthz (sh v) k = nthz (sh t0) k) /\
+  (List.length (pl t0) = numel (sh t0) -> List.length (pl v) = numel (sh v)).
+Proof. exact (concat_spec_shape axis (t0 :: rest) v). Qed.
+Print Assumptions C08_concat_spec_shape.
 
 (* the two excluded corners are real disagreements between gorgonia-through-slice.go and S, outside
    what the harness generates and outside ONNX's defined behaviour: an axis named twice (ONNX: undefined),
